@@ -205,6 +205,17 @@ CHECKS["C24"] = ("model_checking",
     "something) and checks that the result is feasible and of minimal cost, that 'impossible' is only declared when no mapping is feasible, and that the method's own "
     "distribution_cost equals the cost model on its result.",
     "Trusted: TLC (Judge_C24), CBC solving the models to optimality, the numeric tables read through the methods' own helper functions.", "DESIGN.md section 4 C24")
+
+CHECKS["C14"] = ("exploration",
+    "TLC-drawn DCOPs and agent sets dumped to YAML and loaded back by every route (string, one file, several files); the loaded DCOP judged by TLC against the generated one (Judge_C14 / Wire.tla)",
+    "TLC draws DCOPs (Gen_Dcop: 14 shapes, tables incl. negative and large costs, initial values, min/max) and agent sets (Gen_C25); the DCOP is built with int and str "
+    "domains shared between variables, extensional (matrix) and intentional (expression) constraints, agents with capacities, partial symmetric route tables and "
+    "default/specific hosting costs; dcop_yaml output is loaded from the string, from one file (name as str) and split over 2 and 3 files; TLC compares variables, domain "
+    "values with their types, initial values, each constraint's value on every assignment (against TLC's own table), objective, capacities, route and hosting costs "
+    "including the defaults.",
+    "Trusted: TLC (Wire.tla), the construction / observation code of vlib/props/C14.py. The specification contributes the inputs and the definition of equivalence "
+    "(thin use, DESIGN.md section 5). Cost-function variables, external variables and distribution hints are not dumped by dcop_yaml and are not generated.",
+    "DESIGN.md section 4 C14")
 NOT_YET = "check not built yet in this snapshot (work in progress, see DESIGN.md section 9)"
 
 fix_commits = subprocess.run(["git", "-C", "/repo", "log", "--format=%h %s", "aeaae91..HEAD"], capture_output=True, text=True).stdout.splitlines()
